@@ -54,8 +54,17 @@ T_C01_ServedOnce == Observed =>
         /\ Calls[a][3] = St.listener[Calls[a][1]]                     \* its listener's service
         /\ \E d \in 1..Len(St.dlog) : St.dlog[d][1] = Calls[a][1] /\ St.dlog[d][2] = Calls[a][2]
 T_C01_Conservation == Observed => C01_Conservation
+\* an unserved connection may be closed only because (a) the worker generation it was queued at died, (b) the accept
+\* thread had no handle left when it held it, or (c) it never left the backlog and the server stopped
+Accepted(c) == \E a \in 1..Len(St.accepted) : St.accepted[a] = c
+Dispatched(c) == \E d \in 1..Len(St.dlog) : St.dlog[d][1] = c
 T_C01_NoSilentDrop == Observed =>
-  \A c \in closed : (\E a \in 1..Len(Calls) : Calls[a][1] = c) \/ everFaulted \/ ~running
+  \A c \in closed :
+     \/ \E a \in 1..Len(Calls) : Calls[a][1] = c                      \* served (and finished)
+     \/ (Dispatched(c) /\ everFaulted)                                  \* queued at a worker that died
+     \/ (Accepted(c) /\ ~Dispatched(c) /\ \E x \in 1..Len(St.droppedNoHandle) : St.droppedNoHandle[x] = c)  \* no handle was left
+     \/ (~Accepted(c) /\ ~running)
+     \/ obs.st.wstate[1] \in {"Shutdown", "Done"}                        \* released by a worker that is shutting down
 \* C02
 T_C02_Bound == Observed => C02_Bound
 \* C03: at records the driver marked quiescent (it iterated the real loop until nothing changed)
